@@ -302,3 +302,7 @@ func verifMemberOf(s string, words []string) bool {
 func verifContains(s, sub string) bool { return strings.Contains(s, sub) }
 
 func verifHasPrefix(s, prefix string) bool { return strings.HasPrefix(s, prefix) }
+
+// verifDeterministic: value must not depend on map iteration order or slice capacity
+// (relational obligation over schedules, DESIGN C07); natively it is an observation.
+func verifDeterministic(label string, value string) { verifObserve("det:"+label, value) }
